@@ -31,6 +31,10 @@ type c04vTr struct {
 	file string
 	recv string // receiver name
 	val  string // name of the float64 component variable ("" in readers)
+	// vector writers: the bound vector variable, the componentwise term of its method chain, the component last read
+	vecVar, vecTerm, comp string
+	// vector readers: the receiver field holding the offset of the component being translated ("offset" for scalars)
+	offField string
 }
 
 func (t *c04vTr) at(n ast.Node) string {
@@ -49,7 +53,43 @@ func (t *c04vTr) isRecvField(e ast.Expr, field string) bool {
 // `buf[recv.offset:]` or `buf[recv.offset]` (reader), where buf is the method's byte-slice parameter
 func (t *c04vTr) isWireAt(x ast.Expr, idx ast.Expr) bool {
 	id, ok := x.(*ast.Ident)
-	return ok && id.Name == "buf" && t.isRecvField(idx, "offset")
+	f := t.offField
+	if f == "" {
+		f = "offset"
+	}
+	return ok && id.Name == "buf" && t.isRecvField(idx, f)
+}
+
+// componentwise reading of a vector method chain `recv.arr.At(i).M1(…).M2(…)…`: the term in the component `v`
+func (t *c04vTr) chain(e ast.Expr) (string, error) {
+	call, ok := e.(*ast.CallExpr)
+	if !ok {
+		return "", fmt.Errorf("%s: unsupported vector expression", t.at(e))
+	}
+	s, ok := call.Fun.(*ast.SelectorExpr)
+	if !ok {
+		return "", fmt.Errorf("%s: unsupported vector expression", t.at(e))
+	}
+	if s.Sel.Name == "At" && t.isRecvField(s.X, "arr") && len(call.Args) == 1 {
+		return "v", nil
+	}
+	arity, ok := map[string]int{"Clamp": 2, "Scale": 1, "RoundToInt": 0, "Round": 0, "ToFloat32": 0}[s.Sel.Name]
+	if !ok || len(call.Args) != arity {
+		return "", fmt.Errorf("%s: unsupported vector method %s", t.at(e), s.Sel.Name)
+	}
+	inner, err := t.chain(s.X)
+	if err != nil {
+		return "", err
+	}
+	parts := []string{s.Sel.Name}
+	for _, a := range call.Args {
+		lit, ok := a.(*ast.BasicLit)
+		if !ok {
+			return "", fmt.Errorf("%s: unsupported vector method argument", t.at(a))
+		}
+		parts = append(parts, strings.TrimSuffix(lit.Value, "."))
+	}
+	return "(" + strings.Join(append(parts, inner), " ") + ")", nil
 }
 
 var c04vConv = map[string]bool{"byte": true, "uint32": true, "int32": true, "int64": true, "float32": true, "float64": true}
@@ -91,6 +131,12 @@ func (t *c04vTr) expr(e ast.Expr) (string, error) {
 			return "(byte wire)", nil
 		}
 	case *ast.CallExpr:
+		if s, ok := x.Fun.(*ast.SelectorExpr); ok && t.vecVar != "" && len(x.Args) == 0 {
+			if id, ok := s.X.(*ast.Ident); ok && id.Name == t.vecVar && strings.Contains("XYZW", s.Sel.Name) && len(s.Sel.Name) == 1 {
+				t.comp = s.Sel.Name
+				return t.vecTerm, nil
+			}
+		}
 		if id, ok := x.Fun.(*ast.Ident); ok && c04vConv[id.Name] && len(x.Args) == 1 {
 			a, err := t.expr(x.Args[0])
 			if err != nil {
@@ -217,6 +263,335 @@ func (t *c04vTr) cases(sw *ast.SwitchStmt, row func(ast.Stmt) (string, error)) (
 		return nil, fmt.Errorf("%s: switch has no panicking default", t.at(sw))
 	}
 	return out, nil
+}
+
+
+type c04vSpec struct {
+	n                              int
+	wfile, rfile                   string
+	binW, asciiW, binR             string
+	comps                          []string
+	offFields                      []string
+}
+
+// literal K of `recv.buf[K]` / `recv.buf[K:]`; `recv.buf` itself is offset 0
+func (t *c04vTr) bufAt(e ast.Expr) (string, bool) {
+	if t.isRecvField(e, "buf") {
+		return "0", true
+	}
+	var x, k ast.Expr
+	switch v := e.(type) {
+	case *ast.IndexExpr:
+		x, k = v.X, v.Index
+	case *ast.SliceExpr:
+		if v.High != nil || v.Max != nil {
+			return "", false
+		}
+		x, k = v.X, v.Low
+	default:
+		return "", false
+	}
+	lit, ok := k.(*ast.BasicLit)
+	if !ok || lit.Kind != token.INT || !t.isRecvField(x, "buf") {
+		return "", false
+	}
+	return lit.Value, true
+}
+
+func (t *c04vTr) switchCases(sw *ast.SwitchStmt, row func(names []string, body []ast.Stmt, pre []ast.Stmt) (string, error)) ([]string, error) {
+	out := []string{}
+	sawDefault := false
+	cls := sw.Body.List
+	for i, c := range cls {
+		cc := c.(*ast.CaseClause)
+		if cc.List == nil {
+			if len(cc.Body) != 1 || !c04vIsPanic(cc.Body[0]) {
+				return nil, fmt.Errorf("%s: default case does not panic", t.at(cc))
+			}
+			sawDefault = true
+			continue
+		}
+		names := []string{}
+		for _, e := range cc.List {
+			id, ok := e.(*ast.Ident)
+			if !ok {
+				return nil, fmt.Errorf("%s: unsupported case expression", t.at(e))
+			}
+			names = append(names, strconv.Quote(id.Name))
+		}
+		body, pre := cc.Body, []ast.Stmt(nil)
+		if n := len(body); n > 0 {
+			if br, ok := body[n-1].(*ast.BranchStmt); ok {
+				// `fallthrough`: the statements before it, then the body of the following case (duplicated)
+				if br.Tok != token.FALLTHROUGH || i+1 >= len(cls) {
+					return nil, fmt.Errorf("%s: unsupported branch statement", t.at(br))
+				}
+				next := cls[i+1].(*ast.CaseClause)
+				if next.List == nil || len(next.Body) == 0 {
+					return nil, fmt.Errorf("%s: fallthrough into an unsupported case", t.at(br))
+				}
+				if _, ok := next.Body[len(next.Body)-1].(*ast.BranchStmt); ok {
+					return nil, fmt.Errorf("%s: chained fallthrough", t.at(br))
+				}
+				pre, body = body[:n-1], next.Body
+			}
+		}
+		r, err := row(names, body, pre)
+		if err != nil {
+			return nil, err
+		}
+		out = append(out, fmt.Sprintf("([%s], [%s])", strings.Join(names, ", "), r))
+	}
+	if !sawDefault {
+		return nil, fmt.Errorf("%s: switch has no panicking default", t.at(sw))
+	}
+	return out, nil
+}
+
+func c04vVector(fset *token.FileSet, repo string, sp c04vSpec) (binWrite, asciiWrite, binRead []string, pos [3]string, err error) {
+	wf, err := parser.ParseFile(fset, filepath.Join(repo, "formats", "ply", sp.wfile), nil, 0)
+	if err != nil {
+		return
+	}
+	rf, err := parser.ParseFile(fset, filepath.Join(repo, "formats", "ply", sp.rfile), nil, 0)
+	if err != nil {
+		return
+	}
+	q := strconv.Quote
+	checkComps := func(t *c04vTr, n ast.Node, got []string) error {
+		if strings.Join(got, "") != strings.Join(sp.comps, "") {
+			return fmt.Errorf("%s: components %v, expected %v", t.at(n), got, sp.comps)
+		}
+		return nil
+	}
+	// ---- binary writer: case T: v := chain; store(X); store(Y); …
+	bw := c04vMethod(wf, sp.binW, "Write")
+	if bw == nil {
+		err = fmt.Errorf("%s: %s.Write not found", sp.wfile, sp.binW)
+		return
+	}
+	tb := &c04vTr{fset: fset, file: sp.wfile, recv: bw.Recv.List[0].Names[0].Name}
+	pos[0] = tb.at(bw)
+	sw, err := tb.theSwitch(bw, "format")
+	if err != nil {
+		return
+	}
+	binWrite, err = tb.switchCases(sw, func(names []string, body, pre []ast.Stmt) (string, error) {
+		if len(pre) != 0 || len(body) != sp.n+1 {
+			return "", fmt.Errorf("%s: case body is not `v := …` followed by %d stores", tb.at(body[0]), sp.n)
+		}
+		as, ok := body[0].(*ast.AssignStmt)
+		if !ok || as.Tok != token.DEFINE || len(as.Lhs) != 1 || len(as.Rhs) != 1 {
+			return "", fmt.Errorf("%s: first statement does not bind the vector", tb.at(body[0]))
+		}
+		tb.vecVar = as.Lhs[0].(*ast.Ident).Name
+		var e error
+		if tb.vecTerm, e = tb.chain(as.Rhs[0]); e != nil {
+			return "", e
+		}
+		rows, comps := []string{}, []string{}
+		for _, s := range body[1:] {
+			kind, off, val := "", "", ast.Expr(nil)
+			switch x := s.(type) {
+			case *ast.AssignStmt:
+				if x.Tok == token.ASSIGN && len(x.Lhs) == 1 && len(x.Rhs) == 1 {
+					if _, isIdx := x.Lhs[0].(*ast.IndexExpr); isIdx {
+						if k, ok := tb.bufAt(x.Lhs[0]); ok {
+							kind, off, val = "store8", k, x.Rhs[0]
+						}
+					}
+				}
+			case *ast.ExprStmt:
+				if call, ok := x.X.(*ast.CallExpr); ok && len(call.Args) == 2 {
+					if sel, ok := call.Fun.(*ast.SelectorExpr); ok && tb.isRecvField(sel.X, "endian") {
+						if k, ok := tb.bufAt(call.Args[0]); ok {
+							kind, off, val = map[string]string{"PutUint32": "put32", "PutUint64": "put64"}[sel.Sel.Name], k, call.Args[1]
+						}
+					}
+				}
+			}
+			if kind == "" {
+				return "", fmt.Errorf("%s: unsupported store statement", tb.at(s))
+			}
+			tb.comp = ""
+			term, e := tb.expr(val)
+			if e != nil {
+				return "", e
+			}
+			comps = append(comps, tb.comp)
+			rows = append(rows, fmt.Sprintf("(%s, %s, %s, %s)", off, q(tb.comp), q(kind), q(term)))
+		}
+		if e := checkComps(tb, body[0], comps); e != nil {
+			return "", e
+		}
+		return strings.Join(rows, ", "), nil
+	})
+	if err != nil {
+		return
+	}
+	// ---- ASCII writer: v := recv.arr.At(i); case T: [v = chain; fallthrough] print(X) sep print(Y) …
+	aw := c04vMethod(wf, sp.asciiW, "Write")
+	if aw == nil {
+		err = fmt.Errorf("%s: %s.Write not found", sp.wfile, sp.asciiW)
+		return
+	}
+	ta := &c04vTr{fset: fset, file: sp.wfile, recv: aw.Recv.List[0].Names[0].Name}
+	pos[1] = ta.at(aw)
+	as0, ok := aw.Body.List[0].(*ast.AssignStmt)
+	if !ok || as0.Tok != token.DEFINE || len(as0.Lhs) != 1 || len(as0.Rhs) != 1 {
+		err = fmt.Errorf("%s: first statement does not bind the vector", ta.at(aw))
+		return
+	}
+	ta.vecVar = as0.Lhs[0].(*ast.Ident).Name
+	outer, err := ta.chain(as0.Rhs[0])
+	if err != nil {
+		return
+	}
+	sw, err = ta.theSwitch(aw, "format")
+	if err != nil {
+		return
+	}
+	asciiWrite, err = ta.switchCases(sw, func(names []string, body, pre []ast.Stmt) (string, error) {
+		ta.vecTerm = outer
+		if len(pre) > 1 {
+			return "", fmt.Errorf("%s: unsupported statements before fallthrough", ta.at(pre[0]))
+		}
+		if len(pre) == 1 { // v = chain
+			as, ok := pre[0].(*ast.AssignStmt)
+			if !ok || as.Tok != token.ASSIGN || len(as.Lhs) != 1 || len(as.Rhs) != 1 {
+				return "", fmt.Errorf("%s: unsupported statement before fallthrough", ta.at(pre[0]))
+			}
+			if id, ok := as.Lhs[0].(*ast.Ident); !ok || id.Name != ta.vecVar {
+				return "", fmt.Errorf("%s: unsupported statement before fallthrough", ta.at(pre[0]))
+			}
+			var e error
+			if ta.vecTerm, e = ta.chain(as.Rhs[0]); e != nil {
+				return "", e
+			}
+		}
+		if len(body) != 2*sp.n-1 {
+			return "", fmt.Errorf("%s: case body is not %d prints separated by blanks", ta.at(body[0]), sp.n)
+		}
+		rows, comps := []string{}, []string{}
+		for j, s := range body {
+			x, ok := s.(*ast.AssignStmt)
+			if !ok || x.Tok != token.ASSIGN || len(x.Lhs) != 1 || len(x.Rhs) != 1 || !ta.isRecvField(x.Lhs[0], "buf") {
+				return "", fmt.Errorf("%s: unsupported print statement", ta.at(s))
+			}
+			call, ok := x.Rhs[0].(*ast.CallExpr)
+			if !ok || len(call.Args) < 2 || !ta.isRecvField(call.Args[0], "buf") {
+				return "", fmt.Errorf("%s: unsupported print statement", ta.at(s))
+			}
+			if j%2 == 1 { // recv.buf = append(recv.buf, ' ')
+				id, ok := call.Fun.(*ast.Ident)
+				lit, ok2 := call.Args[1].(*ast.BasicLit)
+				if !ok || !ok2 || id.Name != "append" || len(call.Args) != 2 || lit.Value != "' '" {
+					return "", fmt.Errorf("%s: separator is not append(buf, ' ')", ta.at(s))
+				}
+				continue
+			}
+			sel, ok := call.Fun.(*ast.SelectorExpr)
+			if !ok || (sel.Sel.Name != "AppendInt" && sel.Sel.Name != "AppendFloat") {
+				return "", fmt.Errorf("%s: unsupported strconv call", ta.at(s))
+			}
+			if id, ok := sel.X.(*ast.Ident); !ok || id.Name != "strconv" {
+				return "", fmt.Errorf("%s: unsupported strconv call", ta.at(s))
+			}
+			rest := []string{}
+			for _, a := range call.Args[2:] {
+				switch l := a.(type) {
+				case *ast.BasicLit:
+					rest = append(rest, l.Value)
+				case *ast.UnaryExpr:
+					bl, ok := l.X.(*ast.BasicLit)
+					if !ok || l.Op != token.SUB {
+						return "", fmt.Errorf("%s: unsupported format argument", ta.at(a))
+					}
+					rest = append(rest, "-"+bl.Value)
+				default:
+					return "", fmt.Errorf("%s: unsupported format argument", ta.at(a))
+				}
+			}
+			ta.comp = ""
+			term, e := ta.expr(call.Args[1])
+			if e != nil {
+				return "", e
+			}
+			comps = append(comps, ta.comp)
+			rows = append(rows, fmt.Sprintf("(%s, %s, %s)", q(ta.comp), q(sel.Sel.Name+" "+strings.Join(rest, " ")), q(term)))
+		}
+		if e := checkComps(ta, body[0], comps); e != nil {
+			return "", e
+		}
+		return strings.Join(rows, ", "), nil
+	})
+	if err != nil {
+		return
+	}
+	// ---- binary reader: case T: v = vectorN.New(a, b, …)[.DivByConstant(K) | .ToFloat64()]
+	br := c04vMethod(rf, sp.binR, "Read")
+	if br == nil {
+		err = fmt.Errorf("%s: %s.Read not found", sp.rfile, sp.binR)
+		return
+	}
+	tr := &c04vTr{fset: fset, file: sp.rfile, recv: br.Recv.List[0].Names[0].Name}
+	pos[2] = tr.at(br)
+	sw, err = tr.theSwitch(br, "scalarType")
+	if err != nil {
+		return
+	}
+	binRead, err = tr.switchCases(sw, func(names []string, body, pre []ast.Stmt) (string, error) {
+		if len(pre) != 0 || len(body) != 1 {
+			return "", fmt.Errorf("%s: case body is not a single assignment", tr.at(body[0]))
+		}
+		x, ok := body[0].(*ast.AssignStmt)
+		if !ok || x.Tok != token.ASSIGN || len(x.Lhs) != 1 || len(x.Rhs) != 1 {
+			return "", fmt.Errorf("%s: unsupported load statement", tr.at(body[0]))
+		}
+		if id, ok := x.Lhs[0].(*ast.Ident); !ok || id.Name != "v" {
+			return "", fmt.Errorf("%s: unsupported load statement", tr.at(body[0]))
+		}
+		call, ok := x.Rhs[0].(*ast.CallExpr)
+		if !ok {
+			return "", fmt.Errorf("%s: unsupported load expression", tr.at(x))
+		}
+		wrap := "%s"
+		if sel, ok := call.Fun.(*ast.SelectorExpr); ok {
+			if inner, ok := sel.X.(*ast.CallExpr); ok { // New(…).M(args)
+				switch {
+				case sel.Sel.Name == "ToFloat64" && len(call.Args) == 0:
+					wrap = "(ToFloat64 %s)"
+				case sel.Sel.Name == "DivByConstant" && len(call.Args) == 1:
+					lit, ok := call.Args[0].(*ast.BasicLit)
+					if !ok {
+						return "", fmt.Errorf("%s: unsupported divisor", tr.at(call))
+					}
+					wrap = "(DivByConstant " + strings.TrimSuffix(lit.Value, ".") + " %s)"
+				default:
+					return "", fmt.Errorf("%s: unsupported vector method %s", tr.at(call), sel.Sel.Name)
+				}
+				call = inner
+			}
+		}
+		sel, ok := call.Fun.(*ast.SelectorExpr)
+		if !ok || sel.Sel.Name != "New" || len(call.Args) != sp.n {
+			return "", fmt.Errorf("%s: not a vector%d.New(…) of %d components", tr.at(call), sp.n, sp.n)
+		}
+		if id, ok := sel.X.(*ast.Ident); !ok || id.Name != fmt.Sprintf("vector%d", sp.n) {
+			return "", fmt.Errorf("%s: not a vector%d.New(…)", tr.at(call), sp.n)
+		}
+		rows := []string{}
+		for k, a := range call.Args {
+			tr.offField = sp.offFields[k]
+			term, e := tr.expr(a)
+			if e != nil {
+				return "", e
+			}
+			rows = append(rows, fmt.Sprintf("(%s, %s)", q(sp.comps[k]), q(fmt.Sprintf(wrap, term))))
+		}
+		return strings.Join(rows, ", "), nil
+	})
+	return
 }
 
 func c04Values(repo, out string, args []string) error {
@@ -439,12 +814,26 @@ func c04Values(repo, out string, args []string) error {
 	}
 
 	var b strings.Builder
-	b.WriteString("/-\n  GENERATED by /verif/go/facts (mode c04.values) from /repo/formats/ply/writer_vector1.go and reader_vector1.go.\n  Do not edit: regenerated by ./check before every build.\n-/\nnamespace PolyVerif.Gen.PlyValues\n\n")
+	b.WriteString("/-\n  GENERATED by /verif/go/facts (mode c04.values) from /repo/formats/ply/writer_vector{1,3,4}.go and reader_vector{1,3,4}.go.\n  Do not edit: regenerated by ./check before every build.\n-/\nnamespace PolyVerif.Gen.PlyValues\n\n")
 	fmt.Fprintf(&b, "/-- %s  builtVector1PropertyWriter.Write: `case T…:` (constants, store, expression in the float64 component `v`), source order; the default case panics -/\ndef v1BinWrite : List (List String × String × String) :=\n  [%s]\n\n", tb.at(bw), strings.Join(binWrite, ",\n   "))
 	fmt.Fprintf(&b, "/-- %s  asciiVector1PropertyWriter.Write: (constants, strconv call with its format arguments, expression printed); the default case panics -/\ndef v1AsciiWrite : List (List String × String × String) :=\n  [%s]\n\n", ta.at(aw), strings.Join(asciiWrite, ",\n   "))
 	fmt.Fprintf(&b, "/-- %s  builtVector1PropertyReader.Read: (constants, expression in the bytes `wire` at the reader's offset); the default case panics -/\ndef v1BinRead : List (List String × String) :=\n  [%s]\n\n", tr.at(br), strings.Join(binRead, ",\n   "))
 	fmt.Fprintf(&b, "/-- %s  builtAsciiVector1PropertyReader.Read: bit size of `strconv.ParseFloat(buf[offset], ·)` -/\ndef v1AsciiReadBits : Nat := %s\n\n", tq.at(ar), bits)
 	fmt.Fprintf(&b, "/-- … and the conditional post-processing `if scalarType == T { v /= K }` (constant, expression) -/\ndef v1AsciiReadPost : List (String × String) :=\n  [%s]\n\n", strings.Join(post, ", "))
+	for _, sp := range []c04vSpec{
+		{3, "writer_vector3.go", "reader_vector3.go", "builtVector3PropertyWriter", "asciiVector3PropertyWriter", "builtBinaryVector3PropertyReader",
+			[]string{"X", "Y", "Z"}, []string{"xOffset", "yOffset", "zOffset"}},
+		{4, "writer_vector4.go", "reader_vector4.go", "binaryVector4PropertyWriter", "asciiVector4PropertyWriter", "builtVector4PropertyReader",
+			[]string{"X", "Y", "Z", "W"}, []string{"xOffset", "yOffset", "zOffset", "wOffset"}},
+	} {
+		bwr, awr, brd, pos, err := c04vVector(fset, repo, sp)
+		if err != nil {
+			return err
+		}
+		fmt.Fprintf(&b, "/-- %s  %s.Write: per `case` the stores (byte offset in the record buffer, component, store, expression in the component `v` — vector-library methods read componentwise) -/\ndef v%dBinWrite : List (List String × List (Nat × String × String × String)) :=\n  [%s]\n\n", pos[0], sp.binW, sp.n, strings.Join(bwr, ",\n   "))
+		fmt.Fprintf(&b, "/-- %s  %s.Write: per `case` the prints (component, strconv call, expression), separated by `append(buf, ' ')`; a `fallthrough` case carries the following case's body -/\ndef v%dAsciiWrite : List (List String × List (String × String × String)) :=\n  [%s]\n\n", pos[1], sp.asciiW, sp.n, strings.Join(awr, ",\n   "))
+		fmt.Fprintf(&b, "/-- %s  %s.Read: per `case` (component, expression in the bytes `wire` at that component's offset field) -/\ndef v%dBinRead : List (List String × List (String × String)) :=\n  [%s]\n\n", pos[2], sp.binR, sp.n, strings.Join(brd, ",\n   "))
+	}
 	b.WriteString("end PolyVerif.Gen.PlyValues\n")
 	return os.WriteFile(out, []byte(b.String()), 0o644)
 }
